@@ -98,6 +98,10 @@ impl AsyncCopiaSync {
         // the reported numbers: source size, and matched + literal bytes sum to it
         (collision_free() && res is Ok) ==> res->Ok_0.source_size == old(w).files[aspr(&source_path)].len()
             && res->Ok_0.bytes_matched + res->Ok_0.bytes_literal == res->Ok_0.source_size,
+        // C16 for the single-file command: the destination is used as basis AT THE REQUESTED BLOCK SIZE - exactly the literal bytes
+        // of the textbook greedy scan at self's block size (a destination identical to the source costs none)
+        (collision_free() && io_ok() && res is Ok && old(w).files.contains_key(aspr(&dest_path)) && old(w).files[aspr(&dest_path)] != old(w).files[aspr(&source_path)]) ==>
+            res->Ok_0.bytes_literal == g_lit(old(w).files[aspr(&source_path)], old(w).files[aspr(&dest_path)], self.bs() as int, 0),
 //@replace /\.await/ =>  #all
 //@replace /use crate::sync::Sync;/ => 
 //@replace /use std::io::Cursor;/ => 
